@@ -166,7 +166,9 @@ def threeDofJointUpdate (x : Tf α) (axes : List (Axis3 α)) (fr : JointFrame α
   let d1 := V3.dot p0 c1
   let a1 := normalize3 (V3.smul d0 c0 + V3.smul d1 c1)
   let a2n := normalize3 (V3.cross a1 p0)
-  let sg := signv (V3.dot p0 c2)
+  -- `sign(dot(axis_p[0], axis_c[2])) * parity` (`axis_c[2]` carries the parity, the angle it is
+  -- compared with does not: `fix:` commit f5f04c1, defect D7)
+  let sg := signv (V3.dot p0 c2) * fr.parity
   let limitAxes : List (V3 α) := [p0, V3.smul sg (-a2n), c2]
   let ref1 : List (V3 α) := [p1, p0, lon]
   let ref2 : List (V3 α) := [lon, a1, c1]
